@@ -1,7 +1,14 @@
-(** C26 — file transfer and browsing stay inside the allowed paths. *)
+(** C26 — file transfer and browsing stay inside the allowed paths.
+
+    Model: Model/PathPolicy.v over Model/Fs.v (ASCII paths; glob patterns
+    with * and ? only).  Every operation reports the canonical paths of the
+    objects it touched.  The faithful model VIOLATES the property
+    (the C26_refuted theorems); what does hold is proved as C26_empty_allows_nothing and
+    C26_touched_allowed_without_links, which pins the defect: an escape
+    needs a symbolic link on the requested path. *)
 From Coq Require Import List NArith Bool.
 From Coq Require Import String.
-From MM Require Import Model.Fs Model.Untar Model.PathPolicy Proofs.PathPolicyProofs.
+From MM Require Import Model.Fs Model.Untar Model.PathPolicy Proofs.FsProofs Proofs.UntarSafety Proofs.PathPolicyProofs.
 Import ListNotations.
 Local Open Scope string_scope.
 Local Open Scope list_scope.
@@ -14,9 +21,11 @@ Theorem C26_empty_allows_nothing : forall fs r,
 Proof. exact empty_allows_nothing_proof. Qed.
 Print Assumptions C26_empty_allows_nothing.
 
-(** The faithful model violates the property: a symbolic link in a parent
-    directory of the requested path lets every operation reach objects
-    outside allowed_paths. *)
+(** The target statement "every touched object matches the allow list" is
+    FALSE for the code as it is: *)
+
+(** a symbolic link in a parent directory of the requested path lets every
+    operation reach objects outside allowed_paths *)
 Theorem C26_refuted_parent_symlink :
   let fs := build_fs w_tree in
   escapes w_allowed fs (RDownload "/allowed/link/secret.txt") = true /\
@@ -30,7 +39,7 @@ Theorem C26_refuted_parent_symlink :
 Proof. exact refuted_parent_symlink_proof. Qed.
 Print Assumptions C26_refuted_parent_symlink.
 
-(** ... and so does a link as the final component, except for downloads. *)
+(** ... and so does a link as the final component, except for downloads *)
 Theorem C26_refuted_final_symlink :
   let fs := build_fs w_tree in
   escapes w_allowed fs (RUpload "/allowed/flink" "UP") = true /\
@@ -41,3 +50,34 @@ Theorem C26_refuted_final_symlink :
   o_code (exec w_allowed fs (RDownload "/allowed/flink")) = 1%N.
 Proof. exact refuted_final_symlink_proof. Qed.
 Print Assumptions C26_refuted_final_symlink.
+
+(** What does hold, for every allow list, every file system state and every
+    request: if no component of the (cleaned) requested path is a symbolic
+    link — and the path text has no ".." for the kernel to resolve
+    physically, i.e. its raw components are the cleaned ones — then every
+    object the request touches matches the allow list (it is the requested
+    object or lies below it, and the allow rule is closed under descending).
+    The one exception, listed explicitly: directories that MkdirAll creates
+    above an uploaded file (they can lie above an allowed root that does not
+    exist yet). *)
+Theorem C26_touched_allowed_without_links : forall allowed fs r cs,
+  inodes_fresh fs ->
+  validate_path allowed (request_path r) = VOk cs ->
+  no_links_on fs cs ->
+  split_path (request_path r) = cs ->
+  forall p, In p (o_touched (exec allowed fs r)) ->
+    matches_allow allowed p = true \/
+    (exists path data, r = RUpload path data /\ In p (changed_paths fs (fst (mkdir_all fs (parent cs))))).
+Proof. exact touched_allowed_without_links_proof. Qed.
+Print Assumptions C26_touched_allowed_without_links.
+
+(** non-vacuity: a state and a request that satisfy the hypotheses, and the request touches the file *)
+Example C26_nonvacuous :
+  (inodes_fresh c26_ex_fs /\ no_links_on c26_ex_fs ["allowed"; "sub"; "deep.txt"]) /\
+  (let fs := build_fs [IDir "allowed"; IDir "allowed/sub"; IFile "allowed/sub/deep.txt" "DEEP"] in
+   let r := RDownload "/allowed/sub/deep.txt" in
+   validate_path ["/allowed"] (request_path r) = VOk ["allowed"; "sub"; "deep.txt"] /\
+   split_path (request_path r) = ["allowed"; "sub"; "deep.txt"] /\
+   o_code (exec ["/allowed"] fs r) = 0%N /\ o_payload (exec ["/allowed"] fs r) = "DEEP" /\
+   o_touched (exec ["/allowed"] fs r) = [["allowed"; "sub"; "deep.txt"]; ["allowed"; "sub"; "deep.txt"]]).
+Proof. exact (conj c26_ex_hypotheses c26_nonvacuous_proof). Qed.
